@@ -269,6 +269,10 @@ func MontStructured(m *big.Int) []V {
 		out = append(out, V{v, "tomont-resonant"})
 	}
 
+	for _, r := range HalfZeroStored(m) {
+		out = append(out, V{oracle.FromMont(oracle.Limbs(r), m), "stored-half-zero"})
+	}
+
 	return out
 }
 
@@ -659,6 +663,29 @@ func WideResonant(n *big.Int) [][]byte {
 
 			lo.FillBytes(b[16:])
 			out = append(out, b)
+		}
+	}
+
+	return out
+}
+
+// HalfZeroStored returns stored values < m all of whose limbs have a zero low half, resp. a zero high half.
+func HalfZeroStored(m *big.Int) []*big.Int {
+	var out []*big.Int
+
+	for i := 1; i <= 24; i++ {
+		var hi, lo [4]uint64
+
+		for k := 0; k < 4; k++ {
+			x := (uint64(0xd1342543de82ef95)*uint64(i*4+k+1) ^ uint64(i)<<21) | 1
+			hi[k] = x << 32
+			lo[k] = x >> 32
+		}
+
+		for _, l := range [][4]uint64{hi, lo} {
+			if v := oracle.FromLimbs(l); v.Sign() > 0 && v.Cmp(m) < 0 {
+				out = append(out, v)
+			}
 		}
 	}
 
